@@ -288,6 +288,41 @@ theorem C14_staged_goes_to_override :
       "print" ⟨[.arg 1, .arg 9], [("sep", .arg 5)]⟩ = .ok (.override 2 ⟨[.arg 1, .arg 9], [("sep", .arg 5)]⟩) :=
   ⟨rfl, rfl, rfl, rfl⟩
 
+/-! ### Registries are independent
+
+`registryFreshPerInstance` is read by the translator from `malt/utils/type_registry.py`
+(`__init__(self)` binds `self._registry = {}`; no class-level or module-level state); each
+`X_registry = type_registry.TypeRegistry()` in py_builtins.py is a separate construction. -/
+
+/-- The extracted registry table: construction is per instance, the registry names are distinct,
+every overload consults a declared registry and no two overloads consult the same one. -/
+theorem C14_registry_table : registryTableOk = true := by decide
+
+omit [DecidableEq α] in
+/-- Registering an override for a type in registry `reg₁` does not change the dispatch, hence the
+whole behaviour, of any overload that consults a different registry (or none) — for every type
+test, every prior registry contents, every call. -/
+theorem C14_registries_independent (isInst : α → Nat → Bool) (st : RegState) (reg₁ : String) (t o : Nat)
+    (truthy : α → Bool) (ov : Overload) (hne : dispatchReg ov ≠ some reg₁) (c : CallShape α) :
+    (∀ env : Env α, dispatchOf (stagingOf isInst (register st reg₁ t o)) ov env = dispatchOf (stagingOf isInst st) ov env) ∧
+    callOverloadS (stagingOf isInst (register st reg₁ t o)) truthy ov c = callOverloadS (stagingOf isInst st) truthy ov c := by
+  have key : ∀ r, dispatchReg ov = some r → ∀ a,
+      stagingOf isInst (register st reg₁ t o) r a = stagingOf isInst st r a := by
+    intro r hr a
+    have : r ≠ reg₁ := fun e => hne (by rw [hr, e])
+    simp [stagingOf, register, this]
+  exact ⟨fun env => dispatchOf_congr _ _ ov env key, callOverloadS_congr _ _ truthy ov c key⟩
+
+/-- Non-vacuity, on the extracted table: after `len_registry.register(T, o)`, `abs(v)` for `v : T`
+still takes the default path to `abs`, while `len(v)` goes to the override. -/
+example :
+    let st := register (fun _ => []) "len_registry" 5 1
+    let stg : Staging Nat := stagingOf (fun a t => a == t) st
+    callMappedS stg (fun _ => true) "abs" ⟨[.arg 5], []⟩ = .ok (.py ⟨"abs", ⟨[.arg 5], []⟩, true⟩) ∧
+    callMappedS stg (fun _ => true) "len" ⟨[.arg 5], []⟩ = .ok (.override 1 ⟨[.arg 5], []⟩) ∧
+    callMappedS stg (fun _ => true) "sorted" ⟨[.arg 5], []⟩ = .ok (.py ⟨"sorted", ⟨[.arg 5], []⟩, true⟩) :=
+  ⟨rfl, rfl, rfl⟩
+
 omit [DecidableEq α] in
 /-- No extra evaluation, any arguments at all (accepted or not, staged or not): if an overload of the
 table reaches its builtin, every value it hands over is one of the caller's own argument values or
